@@ -33,6 +33,9 @@ TypedCases == {[kind |-> "typed", site |-> s, T |-> ExpectedOf(s, T), S |-> S2, 
 TypedValid(x) == /\ Assignable(x.T, x.S) = "MustNot"
                  /\ (x.site \in {"field", "push", "index_assign", "map_value", "or_fallback", "map_key"} => TRUE)
 
+FnDefs == <<"dbl = fn(x: int) -> int { return x * 2 }", "noret = fn(x: int) { n9 = x }", "two = fn(x: int, y: int) -> int { return x + y }",
+            "strfn = fn(x: str) -> int { return 1 }">>
+StageCls == <<"class Stage {", "	step: fn(int) -> int", "	constructor(self, step: fn(int) -> int) {", "		self.step = step", "	}", "}">>
 (* fixed faults: [name, bad lines, good lines] *)
 Fixed == {
   [name |-> "unknown_name", bad |-> <<"flt = zz + 1" \o M>>, good |-> <<"flt = 1 + 1">>],
@@ -117,6 +120,23 @@ Fixed == {
   [name |-> "fn_decl_returns_optional",
    bad |-> <<"giver = fn() -> int? { return nil }", "flt: fn() -> int = giver" \o M>>,
    good |-> <<"giver = fn() -> int { return 3 }", "flt: fn() -> int = giver">>],
+  \* a slot of function type (list element, field, map value, variable) re-assigned with a function of another signature:
+  \* no result where one is promised, another parameter count, another parameter type
+  [name |-> "fn_slot_index_noret", bad |-> FnDefs \o <<"fl: [fn(int) -> int...] = [dbl, dbl]", "k0 = 0", "fl[k0] = noret" \o M>>,
+                                   good |-> FnDefs \o <<"fl: [fn(int) -> int...] = [dbl, dbl]", "k0 = 0", "fl[k0] = dbl">>],
+  [name |-> "fn_slot_index_arity", bad |-> FnDefs \o <<"fl: [fn(int) -> int...] = [dbl, dbl]", "k0 = 0", "fl[k0] = two" \o M>>,
+                                   good |-> FnDefs \o <<"fl: [fn(int) -> int...] = [dbl, dbl]", "k0 = 0", "fl[k0] = dbl">>],
+  [name |-> "fn_slot_field_noret", bad |-> FnDefs \o StageCls \o <<"sg = Stage(dbl)", "sg.step = noret" \o M>>,
+                                   good |-> FnDefs \o StageCls \o <<"sg = Stage(dbl)", "sg.step = dbl">>],
+  [name |-> "fn_slot_field_param", bad |-> FnDefs \o StageCls \o <<"sg = Stage(dbl)", "sg.step = strfn" \o M>>,
+                                   good |-> FnDefs \o StageCls \o <<"sg = Stage(dbl)", "sg.step = dbl">>],
+  [name |-> "fn_slot_ctor_noret", bad |-> FnDefs \o StageCls \o <<"sg = Stage(noret)" \o M>>,
+                                  good |-> FnDefs \o StageCls \o <<"sg = Stage(dbl)">>],
+  [name |-> "fn_slot_map_noret", bad |-> FnDefs \o <<"fm = map[str, fn(int) -> int]{\"a\": dbl}", "fm[\"b\"] = noret" \o M>>,
+                                 good |-> FnDefs \o <<"fm = map[str, fn(int) -> int]{\"a\": dbl}", "fm[\"b\"] = dbl">>],
+  [name |-> "fn_slot_var_noret", bad |-> FnDefs \o <<"re = dbl", "re = noret" \o M>>, good |-> FnDefs \o <<"re = dbl", "re = dbl">>],
+  [name |-> "fn_slot_push_noret", bad |-> FnDefs \o <<"fl: [fn(int) -> int...] = [dbl]", "fl.push(noret)" \o M>>,
+                                  good |-> FnDefs \o <<"fl: [fn(int) -> int...] = [dbl]", "fl.push(dbl)">>],
   \* `modify` (typed and untyped) of a captured variable with a value of another type
   [name |-> "modify_typed_mismatch", bad |-> <<"tot = 10", "clo = fn() { modify tot: str = \"ten\" }" \o M, "clo()">>,
                                      good |-> <<"tot = 10", "clo = fn() { modify tot: int = 11 }", "clo()">>],
